@@ -30,11 +30,11 @@ PROPS["C18"] = dict(
                  "not driven (shared std::ios state outside the library)",
                  "SOPLEX_WITH_MPFR is defined in the generated config.h: precision boosting is compiled in (counter "
                  "boosting_not_compiled_in would say otherwise)"],
-    min_nontrivial=dict(quick=1500, thorough=100000),
+    min_nontrivial=dict(quick=2500, thorough=100000),
     # thread cap per case is chosen by the harness from the tier (quick: 8, in 15% of the cases 16; thorough: 16) because
     # the driver runs 16 shards in parallel; override with x=dict(maxthreads="N")
     stages=[dict(name="tsan", target="c18", flavour="tsan",
-                 quick=dict(cases=60, maxsize=70), thorough=dict(cases=3000, maxsize=100)),
+                 quick=dict(cases=100, maxsize=70), thorough=dict(cases=3000, maxsize=100)),
             dict(name="plain", target="c18", flavour="plain",
-                 quick=dict(cases=250, maxsize=70), thorough=dict(cases=15000, maxsize=100))],
+                 quick=dict(cases=400, maxsize=70), thorough=dict(cases=15000, maxsize=100))],
 )
